@@ -175,6 +175,74 @@ Definition url_string (scheme host : str) : str :=
   (match scheme, host with [], [] => [] | _, _ => [47; 47] end) ++
   escape_host host ++ [47].
 
+(* ------------------------------------------------------------------------------------------ *)
+(* 3b. the query string on the wire: url.Values.Encode (keys already sorted, one value each) and
+   url.ParseQuery / Request.ParseForm (go1.23.5 net/url: QueryEscape, QueryUnescape, parseQuery)   *)
+
+(* shouldEscape(c, encodeQueryComponent) = false *)
+Definition query_keep (c : N) : bool := is_alnum c || existsb (N.eqb c) [45; 95; 46; 126].
+Definition query_escape (s : str) : str :=
+  flat_map (fun c => if query_keep c then [c]
+                     else if c =? 32 then [43]
+                     else [37; hex_digit (c / 16); hex_digit (c mod 16)]) s.
+
+Definition unhex (c : N) : option N :=
+  if (48 <=? c) && (c <=? 57) then Some (c - 48)
+  else if (97 <=? c) && (c <=? 102) then Some (c - 97 + 10)
+  else if (65 <=? c) && (c <=? 70) then Some (c - 65 + 10)
+  else None.
+
+(* QueryUnescape: %XX -> byte, '+' -> space, a malformed escape is an error *)
+Fixpoint query_unescape (s : str) : option str :=
+  match s with
+  | [] => Some []
+  | c :: r =>
+      if c =? 37 then
+        match r with
+        | a :: b :: r' =>
+            match unhex a, unhex b with
+            | Some x, Some y => match query_unescape r' with Some t => Some (x * 16 + y :: t) | None => None end
+            | _, _ => None
+            end
+        | _ => None
+        end
+      else match query_unescape r with
+           | Some t => Some ((if c =? 43 then 32 else c) :: t)
+           | None => None
+           end
+  end.
+
+Definition amp : N := 38.
+Definition eq_sign : N := 61.
+Definition semicolon : N := 59.
+
+(* Values.Encode *)
+Definition encode_pair (kv : str * str) : str := query_escape (fst kv) ++ [eq_sign] ++ query_escape (snd kv).
+Definition encode_query (ps : list (str * str)) : str := join [amp] (map encode_pair ps).
+
+(* strings.Cut(s, "=") *)
+Fixpoint cut_eq (s : str) : str * str :=
+  match s with
+  | [] => ([], [])
+  | c :: r => if c =? eq_sign then ([], r) else let '(a, b) := cut_eq r in (c :: a, b)
+  end.
+
+(* parseQuery: None = an error was recorded (ParseForm returns it and the gate answers 400);
+   empty segments are skipped, a segment containing ';' is an error *)
+Fixpoint parse_segments (segs : list str) : option (list (str * str)) :=
+  match segs with
+  | [] => Some []
+  | seg :: rest =>
+      if existsb (N.eqb semicolon) seg then None
+      else if is_nil seg then parse_segments rest
+      else let '(k, v) := cut_eq seg in
+           match query_unescape k, query_unescape v, parse_segments rest with
+           | Some k', Some v', Some t => Some ((k', v') :: t)
+           | _, _, _ => None
+           end
+  end.
+Definition parse_query (q : str) : option (list (str * str)) := parse_segments (split_on amp q).
+
 Definition s_http : str := [104;116;116;112].
 Definition s_https : str := [104;116;116;112;115].
 Definition k_redirect_uri : str := [114;101;100;105;114;101;99;116;95;117;114;105].
